@@ -42,6 +42,14 @@ def track (o : Opts) : Frames × List (List Bytes) → List Tok → Frames × Li
     | some fs' => track o (fs', namesStep o fs ns t) ts
     | none => track o (fs, ns) ts
 
+/-- `track` that insists on viability: frames and names after `ts`, `none` if some step is not defined. -/
+def trackRun (o : Opts) : Frames → List (List Bytes) → List Tok → Option (Frames × List (List Bytes))
+  | fs, ns, [] => some (fs, ns)
+  | fs, ns, t :: ts =>
+    match step o.maxDepth fs (kindOf t) with
+    | some fs' => trackRun o fs' (namesStep o fs ns t) ts
+    | none => none
+
 /-- The names already present in the innermost open object after the history `ts` (`[]` outside objects). -/
 def innermostNames (o : Opts) (ts : List Tok) : List Bytes :=
   match (track o (PDA.init, []) ts).2 with
